@@ -187,6 +187,27 @@ CLAIMS['C15'] = dict(
     note='Trusted: clang 14 front end; the regular 6800/4004 mode-offset encoding stated in rules/c15.py.',
     ref='5 (C15)')
 
+CLAIMS['C09'] = dict(
+    technique='agreement of (emitter, range-check type, element width) triples per switch arm, guarded-by queries',
+    text=('Decides the width clauses: in the Motorola-style DC decoder each operand size selects the emitter and the '
+          'range-check type of that width, GetWSize() reports the emitter\'s byte count, the Intel-style layout '
+          'functions pair RangeCheck(IntN) with PutN; every integer emitter call is guarded by that range check (or '
+          'the first-pass/questionable flags) and by the buffer growth; padding only through InsertPadding(). IEEE '
+          'rounding, byte order, CHARSET and DUP values are numerical/behavioural and not decided (an independently '
+          'seeded half-precision rounding change is NOT detected; see DESIGN section 7).'),
+    note='Trusted: clang 14 front end/CFG; the width table in rules/c09.py (8/16/24/32/64 bits).',
+    ref='5 (C09)')
+CLAIMS['C11'] = dict(
+    technique='pairing/typestate on CFG paths, guarded-by queries, token-table agreement, capacity-test lint',
+    text=('Decides the scoping and guarding clauses: every expansion processor opens one private symbol space at the '
+          'first body line of each iteration unless GLOBALSYMBOLS (closing the previous one) and its restorer closes the '
+          'last; every expansion entry point is inert while conditional assembly is off; special-parameter tokens are a '
+          'block above the argument tokens and identical where bodies are stored and expanded; on-demand growth of '
+          'NUL-terminated line buffers counts the terminator. The textual-substitution equivalence itself is not '
+          'decided.'),
+    note='Trusted: clang 14 front end/CFG.',
+    ref='5 (C11)')
+
 NA_REASONS = {}
 
 
